@@ -916,6 +916,11 @@ def comp_nodes(ex, st, sc, e, A0, m, i):
     for nm, clause in each.items():
         ex.oblige(v, "each", nm, ex.spec_bool(clause, v), getattr(ex, "cur_line", 0))
     ex.oblige(v, "each", "element-is-fresh", z3.And(e.z >= A0, e.z < sc.alloc), getattr(ex, "cur_line", 0))
+    top_c = getattr(ex, "top_contract", None) or ex.c
+    for nm, clause in getattr(top_c, "each_local", {}).items():
+        vl = v.clone()
+        vl.store["node"] = e
+        ex.oblige(vl, "each-local", nm, ex.spec_bool(clause, vl), getattr(ex, "cur_line", 0))
     # ---- the resulting list and heap
     A1 = fresh("alloc@comp", I)
     st.assume(A1 >= A0)
